@@ -63,6 +63,11 @@ Check C17_loc_fixed_general :
     nth_error offs i = Some o ->
     core (nth i (offset_to_location Fixed file offs) zero_loc) =
     (o, spec_line (encode file) o, spec_col (encode file) o + 1, spec_line_start (encode file) o).
+Check C17_jsformat_column_refuted :
+  forall file a b,
+    known_multibyte file [a; b] = false -> a <> b -> a <= blen file -> b <= blen file ->
+    let locs := offset_to_location Cur file [a; b] in
+    print_js (nth 0 locs zero_loc) = (spec_line (encode file) a, spec_col (encode file) a + 1).
 
 (** definitions pinned by value: the Rust unit test of location.rs, the design-round
     observation, UTF-8 *)
